@@ -131,7 +131,7 @@ def container_obs(c):
 
 
 def gen_fit(rng):
-    t = rng.choice(["xy", "xy", "indexed", "hist", "unbinned", "xy", "indexed", "hist", "unbinned", "xy", "indexed", "custom"])  # custom rare: open findings F-C09-11/12
+    t = rng.choice(["xy", "xy", "indexed", "hist", "unbinned", "custom"])
     spec = {"type": t, "minimizer": rng.choice(["iminuit", "iminuit", "scipy"]), "do_fit": rng.random() < 0.5, "asym": rng.random() < 0.2}
     if t == "xy":
         mk = rng.choice(sorted(iolib.XY))
